@@ -444,6 +444,8 @@ impl MemoryMap {
             return Err(Error::new(ErrorKind::Other, "Memory mapping failed"));
         }
 
+        #[cfg(feature = "verif-probes")]
+        crate::verif::hit(crate::verif::probe::MMAP_NEW);
         let mut buf = PathBuf::new();
         buf.push(&filename);
         Ok(MemoryMap {
@@ -491,6 +493,8 @@ impl MemoryMap {
 #[cfg(not(target_family = "wasm"))]
 impl AsRef<[u64]> for MemoryMap {
     fn as_ref(&self) -> &[u64] {
+        #[cfg(feature = "verif-bounds")]
+        if self.ptr.is_null() || self.ptr as usize == usize::MAX || (self.ptr as usize) % 8 != 0 { crate::verif::oob("MemoryMap::as_ref", self.ptr as usize, self.len); }
         unsafe { slice::from_raw_parts(self.ptr, self.len) }
     }
 }
@@ -498,6 +502,8 @@ impl AsRef<[u64]> for MemoryMap {
 #[cfg(not(target_family = "wasm"))]
 impl Drop for MemoryMap {
     fn drop(&mut self) {
+        #[cfg(feature = "verif-probes")]
+        crate::verif::hit(crate::verif::probe::MMAP_DROP);
         unsafe {
             let _ = libc::munmap(self.ptr.cast::<libc::c_void>(), self.len);
         }
@@ -1016,6 +1022,8 @@ pub fn absent_option<T: Write>(writer: &mut T) -> io::Result<()> {
 /// Any errors from the reader will be passed through.
 pub fn skip_option<T: Read>(reader: &mut T) -> io::Result<()> {
     let elements = usize::load(reader)?;
+    #[cfg(feature = "verif-probes")]
+    crate::verif::hit(crate::verif::probe::SKIP_OPTION);
     if elements > 0 {
         io::copy(&mut reader.by_ref().take((elements * bits::WORD_BYTES) as u64), &mut io::sink())?;
     }
